@@ -615,8 +615,8 @@ impl<'a> G<'a> {
             // ---- malformed attribute syntax
             _ => {
                 let lvl = self.below(3);
-                let forms_container = ["rename_all", "rename_all camelCase", "tag", "tag = kind", "tag = 3", "= \"x\"", "deny_unknown_fields extra", "validate = f_validate", "validate", "from(String)", "try_from(String) = f_try", "from = f_from", "error", "where_predicate", "rename_all = camelCase;"];
-                let forms_field = ["rename", "rename = renamed", "rename = 3", "rename \"x\"", "skip extra", "default =", "map", "map = 3", "from(u8)", "try_from(u8) = f_try", "try_from(u8) = f_try ->", "missing_field_error", "error =", "skip; default", "skip = true"];
+                let forms_container = ["rename_all", "rename_all camelCase", "tag", "tag = kind", "tag = 3", "= \"x\"", "deny_unknown_fields extra", "validate = f_validate", "validate", "from(String)", "try_from(String) = f_try", "from = f_from", "error", "where_predicate", "rename_all = camelCase;", "generic_param", "generic_param = 3", "where_predicate = 3", "from() = f_from", "try_from(String, u8) = f_try -> MyErr", "from(String) f_from", "deny_unknown_fields = 3", "error = 3 +"];
+                let forms_field = ["rename", "rename = renamed", "rename = 3", "rename \"x\"", "skip extra", "default =", "map", "map = 3", "from(u8)", "try_from(u8) = f_try", "try_from(u8) = f_try ->", "missing_field_error", "error =", "skip; default", "skip = true", "default = 1 2", "from() = f_from", "try_from(u8) -> MyErr", "missing_field_error = 3", "needs_predicate = true"];
                 let forms_variant = ["rename", "rename = renamed", "rename_all", "rename_all = ", "rename = \"a\" extra"];
                 let raw_forms = ["#[deserr]", "#[deserr()]", "#[deserr = \"x\"]", "#[deserr(,)]"];
                 if self.chance(0.2) {
